@@ -1,3 +1,5 @@
 //! Shared pieces of the dasp explorers that depend on the dasp crates.
 
+pub mod domain;
+pub mod fmts;
 pub mod probe;
